@@ -183,7 +183,9 @@ func runC05(x *mc.X) {
 	phase, curTok := "first", "tokA"
 	answerFn(w, func(o *world.Origin, c *world.Call) (*http.Response, error) {
 		if phase != "replace" && (c.Header.Get("If-None-Match") != "" || c.Header.Get("If-Modified-Since") != "") {
-			return o.Respond(c, RS{Status: 304, NoTok: true, H: H("X-Merged", "m", "Cache-Control", "max-age=1000", "X-Merged-List", "one", "X-Merged-List", "two", "X-Merged-List", "one", "X-Withdrawn", "")}), nil
+			return o.Respond(c, RS{Status: 304, NoTok: true, H: H("X-Merged", "m", "Cache-Control", "max-age=1000", "X-Merged-List", "one", "X-Merged-List", "two", "X-Merged-List", "one", "X-Withdrawn", "",
+				// round 6: the 304 nominates a field of its own as hop-by-hop; neither may reach the stored response or a later hit
+				"Connection", "X-Via-304, keep-alive", "X-Via-304", "HOPMARK304", "Keep-Alive", "timeout=5, max=HOPMARK305")}), nil
 		}
 		body := body
 		if phase == "replace" {
@@ -311,6 +313,7 @@ func runC05(x *mc.X) {
 			got.Del("Content-Length")
 		}
 		if merged {
+			hop["X-Via-304"] = true // nominated by the 304's own Connection field
 			// fields carried by the 304 replace the stored ones (C08)
 			if l := got.Values("X-Merged-List"); had304 && strings.Join(l, "|") != "one|two|one" {
 				x.Failf("a field carried by the 304 on several lines is not replayed with all of them", "%s: X-Merged-List %q, the 304 carried [one two one]", what, l)
@@ -373,6 +376,9 @@ func runC05(x *mc.X) {
 	o3 := get(w, U, "Cache-Control", "no-cache")
 	logObs(x, "GET no-cache (origin: 304)", o3)
 	had304 = len(o3.Calls) == 1 && o3.Calls[0].RespCode == 304
+	if v := o3.Header.Values("X-Via-304"); had304 && o3.HdrTok == "tokA" && len(v) > 0 {
+		x.Failf("hop-by-hop field of the 304 replayed on the revalidated response", "X-Via-304: %q (nominated by the 304's Connection field)", v)
+	}
 	if o3.Err == nil && o3.Panic == nil && o3.HdrTok == "tokA" {
 		if !bytes.Equal(o3.Body, originBody) {
 			x.Failf(fmt.Sprintf("revalidated body differs from the origin body (%s)", framing), "origin %d bytes, got %d bytes", len(originBody), len(o3.Body))
